@@ -151,7 +151,7 @@ class World:
         self.R = env.block(h - 2, ZERO32, [self.cbR, t10, t11, t12, t14], tok(BLK, 0), ts=1000)
         self.P = env.block(h - 1, self.R.hash(), [self.cbP, s14], tok(BLK, 1), ts=2000 if pts is None else pts,
                            target=MAXTARGET if ptarget is None else ptarget)
-        self.F = env.block(h - 1, self.R.hash(), [self.cbF], tok(BLK, 2), ts=2001)
+        self.F = env.block(h - 1, self.R.hash(), [self.cbF], tok(BLK, 2), ts=2001, merkle=self.cbF.hash())   # by-itself valid
         outs_P = [((dt.OutputReference(i, n)), o) for (i, n, o) in
                   [(tok(TX, 10), 0, t10.outputs[0]), (tok(TX, 10), 1, t10.outputs[1]), (tok(TX, 11), 0, t11.outputs[0]),
                    (tok(TX, 12), 0, t12.outputs[0])]]
